@@ -25,7 +25,7 @@ META = dict(
     explanation="On the real State/DAG: per-individual outputs (model rows, nll_attach_ind, nll_regul_<v>_ind, nll_regul_ind_sum_ind) of "
     "individual i are proved (a) syntactically/semantically independent of every symbol of the other individuals, (b) equal to the value "
     "computed for that individual alone, (c) to sum to the population totals, (d) to be permuted by a permutation of the individuals.",
-    bounds="2-3 individuals, 2 visits, 2 features, sources 0..1, logistic / linear (+ joint, shared-speed in thorough); reals",
+    bounds="2-3 individuals, 2 visits, 2 features, sources 0..1, logistic / linear (+ joint, shared-speed in thorough); reals; one step of the individual sampler in float32 (2 individuals, 2-safety, likelihoods may overflow)",
     outside="bit-identical float statements involving reductions; joblib workers (n_jobs); scipy optimiser results per subject",
     assumptions=["floats as reals (so 'up to summation order' is granted)", "transcendental functions abstracted consistently"],
 )
@@ -203,13 +203,21 @@ def scipy_plumbing_task(n_ids):
     return plumbing_task(n_ids, prop=PROP)
 
 
+def sampler_noninterference_task(n_ind=2, shape=(1,)):
+    """one step of the real individual sampler in IEEE float32: two executions that agree on individual 0 and differ freely on the
+    others (their likelihoods may overflow to inf / NaN) give individual 0 the same transition (harness shared with C03)"""
+    from harness.c03 import ind_noninterference_task
+
+    return ind_noninterference_task(n_ind, shape, prop=PROP)
+
+
 def tasks(tier, seed=0):
     cfgs = [
         ("logistic", dict(features=["a", "b"], source_dimension=1, obs_models="gaussian-diagonal")),
         ("logistic", dict(features=["a", "b"], source_dimension=0, obs_models="gaussian-scalar")),
         ("linear", dict(features=["a", "b"], source_dimension=1, obs_models="gaussian-scalar")),
     ]
-    ts = [("independence_task", dict(kind=k, kw=kw)) for k, kw in cfgs] + [("scipy_plumbing_task", dict(n_ids=3))]
+    ts = [("independence_task", dict(kind=k, kw=kw)) for k, kw in cfgs] + [("scipy_plumbing_task", dict(n_ids=3)), ("sampler_noninterference_task", dict(n_ind=2, shape=(1,)))]
     if tier == "thorough":
         ts += [("independence_task", dict(kind=k, kw=kw, n_ind=3)) for k, kw in cfgs]
         ts.append(("independence_task", dict(kind="shared_speed_logistic", kw=dict(features=["a", "b"], source_dimension=1))))
